@@ -233,10 +233,6 @@ func c04Coverage(c *core.Ctx, w WLCase) {
 	c.Count("nodes", st.Nodes)
 	c.Count("edges", st.Edges)
 	c.Count("coverage_cases", 1)
-	if st.Capped || st.TooWide || st.Uncalibrated {
-		c.Incomplete("coverage exploration of %s capped/too wide/uncalibrated", mustJSON(w))
-		return
-	}
 	if bad != "" {
 		c.Violation(key+" failed", bad, rp)
 		return
@@ -270,6 +266,12 @@ func c04Coverage(c *core.Ctx, w WLCase) {
 				return
 			}
 		}
+	}
+	if st.Capped || st.TooWide || st.Uncalibrated {
+		// the pigeonhole bound above only needs the announced bounds; the
+		// coverage verdicts below need every alternative of every draw
+		c.Incomplete("coverage exploration of %s capped/too wide/uncalibrated (pigeonhole bound judged)", mustJSON(w))
+		return
 	}
 	if st.Unannounced > 0 {
 		// raw 32-bit words are explored through a 4141-word menu (see
@@ -309,6 +311,19 @@ func c04Coverage(c *core.Ctx, w WLCase) {
 	c.Outcome(fmt.Sprintf("coverage L=%d %s", L, w.Cap))
 }
 
+// c04Huge: single-deviation coverage of every word of an n-word list at every
+// position of an L-word password.
+func c04Huge(c *core.Ctx, n, L int) {
+	ws := make([]string, n)
+	for i := range ws {
+		ws[i] = fmt.Sprintf("w%dx", i)
+	}
+	for r := uint32(0); r < uint32(n); r++ {
+		cal.Rep(uint32(n), r) // calibrate outside any Read
+	}
+	c04Coverage(c, WLCase{Words: ws, Length: L, Cap: "none", Sep: Sep{Kind: "none"}})
+}
+
 func c04Run(c *core.Ctx) {
 	maxLeaves := int64(6000)
 	lengths := []int{1, 2, 3}
@@ -336,14 +351,7 @@ func c04Run(c *core.Ctx) {
 		if !c.Mine() {
 			continue
 		}
-		ws := make([]string, n)
-		for i := range ws {
-			ws[i] = fmt.Sprintf("w%dx", i)
-		}
-		for r := uint32(0); r < uint32(n); r++ {
-			cal.Rep(uint32(n), r) // calibrate outside any Read
-		}
-		c04Coverage(c, WLCase{Words: ws, Length: 2, Cap: "none", Sep: Sep{Kind: "none"}})
+		c04Huge(c, n, 2)
 	}
 	// long recipes: single-deviation coverage
 	longL := []int{4, 8, 16, 17, 18, 33, 64, 65, 130}
